@@ -3,7 +3,6 @@ package serixgen
 import (
 	"fmt"
 	"math"
-	"math/big"
 	"reflect"
 	"sort"
 	"strings"
@@ -47,10 +46,9 @@ func render(sb *strings.Builder, n *Node, v reflect.Value) {
 		}
 		sb.WriteString("'")
 	case KBigInt:
-		if v.IsNil() {
+		if bi := BigOf(v); bi == nil {
 			sb.WriteString("nil")
 		} else {
-			bi, _ := v.Interface().(*big.Int)
 			sb.WriteString(bi.String())
 		}
 	case KTime:
